@@ -232,10 +232,10 @@ def run_check(modname, tier, seed, replay=None):
     seen_sigs = set()
     for i, (sig, wit) in enumerate(unlisted):
         key = json.dumps(jsonable(sig), sort_keys=True)
-        if key in seen_sigs and len(replay_paths) >= 3:
+        if key in seen_sigs:
             continue
         seen_sigs.add(key)
-        if len(replay_paths) >= 12:
+        if len(replay_paths) >= 25:
             break
         p = os.path.join(VERIF, 'replay', cid, '%d-%d.json' % (seed, i))
         with open(p, 'w') as f:
